@@ -9,14 +9,62 @@ pub fn err_msg() -> (r: String) { String::new() }
 
 //@extract type OriginId from src/core/utils.rs
 //@end
+//@extract type Quat from src/core/utils.rs
+//@end
+//@extract struct Radians from src/coordinate_systems/base.rs attrs=keep
+//@end
+//@extract struct Spherical from src/coordinate_systems/spherical.rs attrs=keep
+//@end
+//@extract enum Orientation from src/core/hilbert.rs
+//@end
+//@extract struct Origin from src/core/utils.rs
+//@end
 //@extract type FaceTriangleIndex from src/projections/dodecahedron.rs
 //@end
+
+// the immutable face table (see unit codec / Kani K1); only its length matters here
+#[verifier::external_body]
+pub fn get_origins() -> (r: &'static Vec<Origin>)
+    ensures r@.len() == 12, r@ == get_origins_spec(),
+{ unimplemented!() }
+
+// float-layer points: opaque
+#[verifier::external_body] #[derive(Clone, Copy)] pub struct Face { _p: f64 }
+#[verifier::external_body] #[derive(Clone, Copy)] pub struct Polar { _p: f64 }
+#[verifier::external_body] #[derive(Clone, Copy)] pub struct Cartesian { _p: f64 }
+
+// float callees: ASSUMED deterministic functions of their explicit arguments (uninterpreted spec functions)
+pub uninterp spec fn sp_to_cartesian(s: Spherical) -> Cartesian;
+pub uninterp spec fn sp_to_spherical(c: Cartesian) -> Spherical;
+pub uninterp spec fn sp_to_polar(f: Face) -> Polar;
+pub uninterp spec fn sp_transform_quat(c: Cartesian, q: Quat) -> Cartesian;
+pub uninterp spec fn sp_rotate_polar(p: Polar, a: Radians) -> Polar;
+pub uninterp spec fn sp_gnomonic_forward(s: Spherical) -> Polar;
+pub uninterp spec fn sp_floor_index(p: Polar) -> i32;
+pub uninterp spec fn sp_should_reflect(p: Polar) -> bool;
+pub uninterp spec fn sp_poly_forward(c: Cartesian, st: SphericalTriangle, ft: FaceTriangle) -> Face;
+pub uninterp spec fn sp_poly_inverse(f: Face, ft: FaceTriangle, st: SphericalTriangle) -> Cartesian;
+
+#[verifier::external_body] pub fn to_cartesian(s: Spherical) -> (r: Cartesian) ensures r == sp_to_cartesian(s), { unimplemented!() }
+#[verifier::external_body] pub fn to_spherical(c: Cartesian) -> (r: Spherical) ensures r == sp_to_spherical(c), { unimplemented!() }
+#[verifier::external_body] pub fn to_polar(f: Face) -> (r: Polar) ensures r == sp_to_polar(f), { unimplemented!() }
+#[verifier::external_body] pub fn transform_quat(c: Cartesian, q: Quat) -> (r: Cartesian) ensures r == sp_transform_quat(c, q), { unimplemented!() }
+#[verifier::external_body] pub fn rotate_polar(p: Polar, a: Radians) -> (r: Polar) ensures r == sp_rotate_polar(p, a), { unimplemented!() }
+// `(gamma / PI_OVER_5).floor() as i32`: gamma comes from atan2 (|gamma| <= pi), so |quotient| <= 5 (ASSUMED bound: 100)
+#[verifier::external_body] pub fn floor_index(p: Polar) -> (r: i32) ensures r == sp_floor_index(p), -100 <= r <= 100, { unimplemented!() }
 
 // float-layer value types and sub-projections: opaque
 #[verifier::external_body] #[derive(Clone, Copy)] pub struct FaceTriangle { _p: f64 }
 #[verifier::external_body] #[derive(Clone, Copy)] pub struct SphericalTriangle { _p: f64 }
 #[verifier::external_body] pub struct PolyhedralProjection { _p: f64 }
 #[verifier::external_body] pub struct GnomonicProjection { _p: f64 }
+impl GnomonicProjection {
+    #[verifier::external_body] pub fn forward(&self, s: Spherical) -> (r: Polar) ensures r == sp_gnomonic_forward(s), { unimplemented!() }
+}
+impl PolyhedralProjection {
+    #[verifier::external_body] pub fn forward(&self, c: Cartesian, st: SphericalTriangle, ft: FaceTriangle) -> (r: Face) ensures r == sp_poly_forward(c, st, ft), { unimplemented!() }
+    #[verifier::external_body] pub fn inverse(&self, f: Face, ft: FaceTriangle, st: SphericalTriangle) -> (r: Cartesian) ensures r == sp_poly_inverse(f, ft, st), { unimplemented!() }
+}
 #[verifier::external_body] pub struct CRS { _p: f64 }
 
 //@extract struct DodecahedronProjection from src/projections/dodecahedron.rs
@@ -60,6 +108,19 @@ impl DodecahedronProjection {
             res is Ok ==> res->Ok_0 == spec_st(face_triangle_index as int, origin_id as int, reflected),
     { unimplemented!() }
 
+    #[verifier::external_body]
+    fn should_reflect(&self, polar: Polar) -> (r: bool)
+        ensures r == sp_should_reflect(polar),
+    { unimplemented!() }
+
+//@extract fn get_face_triangle_index from src/projections/dodecahedron.rs impl=DodecahedronProjection ret=res tags=C13,C14
+//@rewrite "let gamma = polar.gamma().get();\n        let index = ((gamma / PI_OVER_5.get()).floor() as i32 + 10) % 10;" => "let index = (floor_index(polar) + 10) % 10;"
+//@spec
+ensures
+    res is Ok, res->Ok_0 <= 9,                                                                              // [C13:get_face_triangle_index.range]
+    res->Ok_0 == tri_index(sp_floor_index(polar)),                                                          // [C13:get_face_triangle_index.value]
+//@end
+
 //@extract fn get_face_triangle from src/projections/dodecahedron.rs impl=DodecahedronProjection ret=res tags=C13,C14
 //@spec
 requires
@@ -86,6 +147,55 @@ ensures
         ==> final(self).st_slots()[k] == old(self).st_slots()[k],                                           // [C13:get_spherical_triangle.frame-slots]
 //@end
 }
+
+impl DodecahedronProjection {
+//@extract fn forward from src/projections/dodecahedron.rs impl=DodecahedronProjection ret=res tags=C13,C14
+//@rewrite "let rotated_polar = Polar::new(\n            polar.rho(),\n            Radians::new_unchecked(polar.gamma().get() - origin.angle.get()),\n        );" => "let rotated_polar = rotate_polar(polar, origin.angle);"
+//@spec
+requires
+    old(self).inv(),
+ensures
+    final(self).inv(),                                                                                       // [C13:forward.invariant]
+    origin_id >= 12 ==> res is Err,
+    res is Ok ==> res->Ok_0 == spec_forward(spherical, origin_id),                                          // [C13:forward.history-independent]
+//@end
+
+//@extract fn inverse from src/projections/dodecahedron.rs impl=DodecahedronProjection ret=res tags=C13,C14
+//@spec
+requires
+    old(self).inv(),
+    origin_id < 12,      // its callers pass decoded face ids (obligation in unit glue: dodecahedron_inverse requires origin_id < 12)
+ensures
+    final(self).inv(),                                                                                       // [C13:inverse.invariant]
+    res is Ok ==> res->Ok_0 == spec_inverse(face, origin_id),                                               // [C13:inverse.history-independent]
+//@end
+}
+
+/// the value forward()/inverse() return, as a function of the explicit arguments only (no cache state)
+pub open spec fn tri_index(f: i32) -> usize {
+    let index = (f + 10) % 10;
+    if index < 0 { (index + 10) as usize } else { index as usize }
+}
+
+pub open spec fn spec_forward(spherical: Spherical, origin_id: OriginId) -> Face {
+    let origin = get_origins_spec()[origin_id as int];
+    let unprojected = sp_to_cartesian(spherical);
+    let out = sp_transform_quat(unprojected, origin.inverse_quat);
+    let polar = sp_gnomonic_forward(sp_to_spherical(out));
+    let rotated = sp_rotate_polar(polar, origin.angle);
+    let idx = tri_index(sp_floor_index(rotated));
+    let reflect = sp_should_reflect(rotated);
+    sp_poly_forward(unprojected, spec_st(idx as int, origin_id as int, reflect), spec_ft(idx as int, reflect, false))
+}
+
+pub open spec fn spec_inverse(face: Face, origin_id: OriginId) -> Spherical {
+    let polar = sp_to_polar(face);
+    let idx = tri_index(sp_floor_index(polar));
+    let reflect = sp_should_reflect(polar);
+    sp_to_spherical(sp_poly_inverse(face, spec_ft(idx as int, reflect, false), spec_st(idx as int, origin_id as int, reflect)))
+}
+
+pub uninterp spec fn get_origins_spec() -> Seq<Origin>;
 
 /// C13 (one thread): the answer of a call does not depend on the history of earlier calls - any two states
 /// satisfying the invariant give the same result
